@@ -460,11 +460,32 @@ class MonC09(Monitor):
              lambda s: s.config_detuning_map(s.register.define_detuning_map({q0: 1.0}), "dmm_99")),
             ("measure(unknown basis)", lambda s: s.measure("no_such_basis")),
         ]
+        # the same calls (and a few more) on a FRESH sequence of the device whose first call was
+        # config_slm_mask: the mask is pending, its DMM is declared by whatever call enters Ising mode
+        bases = [("", base)]
+        if dev.dmm_objs:
+            try:
+                with warnings.catch_warnings():
+                    warnings.simplefilter("ignore")
+                    fresh = dev.new_sequence()
+                    fresh.config_slm_mask([q0], "dmm_0")
+                bases.append(("after config_slm_mask on the empty sequence: ", fresh))
+            except Exception:  # noqa: BLE001
+                pass
+        pending = [
+            ("config_detuning_map(the mask's dmm)",
+             lambda s: s.config_detuning_map(s.register.define_detuning_map({q0: 1.0}), "dmm_0")),
+            ("declare_channel(bad initial target)",
+             lambda s: s.declare_channel("zz_probe", dev.chan_ids[0], initial_target="no_such_qubit")),
+            ("config_slm_mask(second mask)", lambda s: s.config_slm_mask([q0], "dmm_0")),
+        ]
         with warnings.catch_warnings():
             warnings.simplefilter("ignore")
-            for name, fn in probes:
+            for prefix, base_i, name, fn in [(pf, b, n, f) for pf, b in bases
+                                             for n, f in probes + (pending if pf else [])]:
+                name = prefix + name
                 try:
-                    seq = copy.deepcopy(base)
+                    seq = copy.deepcopy(base_i)
                     before = self.deep_state(seq)
                 except Exception:  # noqa: BLE001
                     continue
@@ -480,7 +501,8 @@ class MonC09(Monitor):
                             diff.remove("refs")
                         fails.append(self.F("failed-call-not-atomic",
                                             f"{name} raised {type(e).__name__} but changed {diff}",
-                                            op=name.split("(")[0], err=type(e).__name__, what=",".join(diff), probe=True))
+                                            op=name[len(prefix):].split("(")[0], err=type(e).__name__,
+                                            what=",".join(diff), probe=True, **({"pending_mask": True} if prefix else {})))
         return fails
 
     def end(self, ls):
@@ -1137,7 +1159,7 @@ class MonC10(Monitor):
         pre = self.p.aux.get(name)
         new, n0 = new_slots(st, op["ch"])
         if k in ("add", "addeom"):
-            if pre is None or op["proto"] == "no-delay" or (k == "addeom" and op.get("corr")):
+            if pre is None or op["proto"] == "no-delay":
                 return fails
             ch = pre["ch"]
             pulses = [s for s in new if s["k"] == "P"]
